@@ -104,8 +104,10 @@ class Model:
             return ('noraise',)
         if name == 'len':
             return ('ok', len(self.live))
-        dflt = {'pop': 0, 'peek': 0, 'popd': 1, 'peekd': 1, 'popn': 2, 'peekn': 2}[name]
+        dflt = {'pop': 0, 'peek': 0, 'popd': 1, 'peekd': 1, 'popn': 2, 'peekn': 2, 'popt': 3, 'peekt': 3}[name]
         if not self.live:
+            if dflt == 3:
+                return ('ok', op[1])          # the caller's default happens to be one of the task objects
             return ('exc', 'IndexError') if dflt == 0 else ('ok', DEFAULT if dflt == 1 else None)
         best = self.order()[0]
         if name.startswith('pop'):
@@ -121,7 +123,7 @@ def shape(op, model):
     if name == 'remove':
         return 'remove' if model.find(op[1]) >= 0 else 'remove(absent)'
     return {'pop': 'pop', 'popd': 'pop(default)', 'popn': 'pop(default)', 'peek': 'peek', 'peekd': 'peek(default)',
-            'peekn': 'peek(default)', 'len': 'len'}[name]
+            'peekn': 'peek(default)', 'len': 'len', 'popt': 'pop(default=a task)', 'peekt': 'peek(default=a task)'}[name]
 
 
 # ----------------------------------------------------------------------------------------------------
@@ -158,6 +160,10 @@ def impl_apply(q, op, T):
             return ('ok', show(q.peek(DEFAULT)))
         if name == 'peekn':
             return ('ok', show(q.peek(default=None)))
+        if name == 'popt':
+            return ('ok', show(q.pop(T[op[1]])))
+        if name == 'peekt':
+            return ('ok', show(q.peek(T[op[1]])))
         if name == 'len':
             return ('ok', len(q))
     except Exception as e:
@@ -261,7 +267,7 @@ def drain_one(q, limit):
 
 
 AFTER_EMPTY = [('ok', DEFAULT), ('ok', DEFAULT), ('exc', 'IndexError'), ('ok', 0)]
-DEFAULT_OPS = ('popd', 'popn', 'peekd', 'peekn')
+DEFAULT_OPS = ('popd', 'popn', 'peekd', 'peekn', 'popt', 'peekt')
 
 
 # ----------------------------------------------------------------------------------------------------
@@ -287,7 +293,8 @@ class Spec:
         self.menu = self._menu()
 
     def _menu(self):
-        m = [('len',), ('peek',), ('peekd',), ('peekn',), ('pop',), ('popd',), ('popn',)]
+        m = [('len',), ('peek',), ('peekd',), ('peekn',), ('pop',), ('popd',), ('popn',),
+             ('popt', self.tasks[0]), ('peekt', self.tasks[0])]     # a default that is identical to a queued task
         for t in self.tasks:
             m.append(('add1', t))
             for p in self.prios:
